@@ -393,13 +393,13 @@ Proof.
 Qed.
 
 Theorem engine_equals_scan hash psl retr rules q t :
-  parsed rules -> (forall f idx, retr idx = Some f <-> In (f, idx) rules) ->
+  parsed rules -> (forall f idx, In (f, idx) rules -> retr idx = Some f) ->
   (In t (map nr_text (match_all hash psl retr (build_net hash rules) q)) <->
    exists f, In f (map fst rules) /\ rmatch psl f q = true /\ nr_text f = t).
 Proof.
   intros P HR. apply match_all_texts.
-  - intros idx f H _. now apply HR.
-  - intros f idx H. now apply HR.
+  - intros idx f H [f0 H0]. rewrite (HR _ _ H0) in H. inversion H; subst. exact H0.
+  - exact HR.
   - intros f idx H. eapply parsed_pdomains_ok; eauto.
   - now apply parsed_text_coherent.
 Qed.
